@@ -455,7 +455,7 @@ def gen_faults(rng: random.Random, n: int, p: float) -> list[dict]:
     out = []
     if rng.random() < p:
         for _ in range(common.weighted(rng, [(1, 4), (2, 1)])):
-            out.append({"t": rng.randrange(max(1, n)), "exc": rng.choice(["RuntimeError", "ValueError", "Custom", "CustomValueError"]), "when": rng.choice(["before", "after"])})
+            out.append({"t": rng.randrange(max(1, n)), "exc": rng.choice(["RuntimeError", "ValueError", "Custom", "CustomValueError", "KeyboardInterrupt"]), "when": rng.choice(["before", "after"])})
     return out
 
 
